@@ -65,6 +65,11 @@ impl OW {
         let (task_flag, task_waker) = flag_waker();
         let mut w = OW { asyncf, unique: None, clones: vec![], subs: vec![], weaks: vec![], cur: v, open: true, kf: false, task_flag, task_waker };
         match (unique, asyncf) {
+            // initial value 0: through the `Default` impls (`T::default()` is `T(0)`)
+            (true, false) if v == 0 => w.unique = Some(Own::U(Observable::default())),
+            (true, true) if v == 0 => w.unique = Some(Own::UA(Observable::default())),
+            (false, false) if v == 0 => w.clones.push(Some(Own::S(SharedObservable::default()))),
+            (false, true) if v == 0 => w.clones.push(Some(Own::SA(SharedObservable::default()))),
             (true, false) => w.unique = Some(Own::U(Observable::new(T(v)))),
             (true, true) => w.unique = Some(Own::UA(Observable::new_async(T(v)))),
             (false, false) => w.clones.push(Some(Own::S(SharedObservable::new(T(v))))),
@@ -109,10 +114,12 @@ impl OW {
         let f = |id: usize| crate::eng_diff::map_fn(id);
         let before = self.cur;
         // ---- the real call
+        let mut seen_through_guard: Option<u64> = None;
         let res: Option<String> = {
             let o = self.owner(h);
             macro_rules! via_guard { ($g:expr) => {{
                 let mut g = $g;
+                seen_through_guard = Some((*g).0);
                 let r = match op {
                     WOp::Set(v) => ObservableWriteGuard::set(&mut g, T(*v)).0.to_string(),
                     WOp::Sne(v) => fmt_opt(ObservableWriteGuard::set_if_not_eq(&mut g, T(*v)).map(|t| t.0)),
@@ -149,7 +156,7 @@ impl OW {
                     WOp::Upd(id) => { let g2 = f(*id); ob.update(|t| t.0 = g2(t.0)); "-".into() }
                     WOp::UpdIf(id, n) => { let g2 = f(*id); let n = *n; ob.update_if(|t| { t.0 = g2(t.0); n }); "-".into() }
                 }),
-                (Own::S(ob), true) => via_guard!(ob.write()),
+                (Own::S(ob), true) => if before % 2 == 0 { via_guard!(ob.write()) } else { via_guard!(ob.try_write().expect("try_write with no guard alive")) },
                 (Own::SA(ob), false) => match op {
                     WOp::Set(v) => now(ob.set(T(*v))).map(|t| t.0.to_string()),
                     WOp::Sne(v) => now(ob.set_if_not_eq(T(*v))).map(|o| fmt_opt(o.map(|t| t.0))),
@@ -174,6 +181,9 @@ impl OW {
         if shown != expect {
             sink.oracle_fail(&self.p("C01"), &format!("{}: returned {shown}, the specification says {expect}", op.text()));
         }
+        if let Some(seen) = seen_through_guard { if seen != before {
+            sink.oracle_fail(&self.p("C01"), &format!("the write guard dereferences to {seen}, the latest value is {before}"));
+        } }
         if notify { self.check_all_woken(sink, "a notifying update"); self.mark_fresh(); }
         let w = self.woke();
         sink.stat(&format!("w.{}", op.text().split(' ').next().unwrap()));
@@ -215,7 +225,11 @@ impl OW {
         // the guard borrows the owner: take it out of `self` for the duration
         let own = if self.unique.is_some() { return } else { self.clones[h].take().unwrap() };
         match &own {
-            Own::S(ob) => run!(ob.write()),
+            Own::S(ob) => {
+                { let _g = ob.write();
+                  if ob.try_read().is_ok() || ob.try_write().is_ok() { sink.oracle_fail("C04", "try_read / try_write succeeded while a write guard is alive"); } }
+                run!(ob.write())
+            }
             Own::SA(ob) => { if let Some(g) = now(ob.write()) { run!(g) } }
             _ => {}
         }
@@ -338,8 +352,18 @@ impl OW {
         let cur = self.cur;
         let v = match self.owner(h) {
             // `get` and `read` alternate
-            Own::U(o) => Some(Observable::get(o).0), Own::UA(o) => Some(Observable::get_async(o).0),
-            Own::S(o) => Some(if cur % 2 == 0 { o.get().0 } else { o.read().0 }),
+            Own::U(o) => Some(if cur % 2 == 0 { Observable::get(o).0 } else { (**o).0 }), Own::UA(o) => Some(Observable::get_async(o).0),
+            Own::S(o) => Some(match cur % 3 {
+                0 => o.get().0,
+                1 => {
+                    // a live read guard: further readers are admitted, a writer is not (C04)
+                    let g = o.read();
+                    if o.try_write().is_ok() { sink.oracle_fail("C04", "try_write succeeded while a read guard is alive"); }
+                    match o.try_read() { Ok(g2) => { if g2.0 != g.0 { sink.oracle_fail("C04,C01", "two read guards alive at once show different values"); } } Err(_) => sink.oracle_fail("C04", "try_read failed while only a read guard is alive") }
+                    g.0
+                }
+                _ => o.try_read().expect("try_read with no guard alive").0,
+            }),
             Own::SA(o) => if cur % 2 == 0 { now(o.get()).map(|t| t.0) } else { now(o.read()).map(|g| g.0) },
         };
         let shown = v.map(|v| v.to_string()).unwrap_or_else(|| "blocked".into());
@@ -482,9 +506,10 @@ fn alphabet(full: bool) -> Vec<A> {
     v
 }
 
-fn run_case(sink: &mut Sink, id: &str, unique: bool, asyncf: bool, seq: &[A]) {
+fn run_case(sink: &mut Sink, id: &str, unique: bool, asyncf: bool, seq: &[A]) { run_case_init(sink, id, unique, asyncf, seq, 1) }
+fn run_case_init(sink: &mut Sink, id: &str, unique: bool, asyncf: bool, seq: &[A], init: u64) {
     sink.case(id);
-    let mut w = OW::new(sink, unique, asyncf, 1);
+    let mut w = OW::new(sink, unique, asyncf, init);
     w.kf = id.starts_with("kf:");
     // start with one subscriber that has already polled (parked)
     w.subscribe(sink, 0, false);
@@ -558,7 +583,8 @@ pub fn run(args: &Args, sink: &mut Sink, asyncf: bool) {
                 27 => A::Into, 28 => A::Counts, _ => A::HGet,
             }
         }).collect();
-        run_case(sink, &format!("R{k}"), r.chance(1, 2), asyncf, &seq);
+        let init = [1, 1, 0, 5][r.below(4)];
+        run_case_init(sink, &format!("R{k}"), r.chance(1, 2), asyncf, &seq, init);
     }
     run_cross(sink, asyncf);
     if asyncf { run_guards(args, sink); }
